@@ -5,7 +5,8 @@ CONSTANTS Callers = {c1, c2}
  MaxAtt = 3
  FreshKey = FALSE
  MaxJunk = 0
+ Kinds = {"obj"}
  Dev = {}
-INVARIANTS WireIdsIncrease SeqNoRules OwnResult AcceptedNeverResent SaltPersisted NoStallNotify NoStallDeliver AckedAll
+INVARIANTS WireIdsIncrease SeqNoRules OwnResult TypedVector LoopAlive AcceptedNeverResent SaltPersisted NoStallNotify NoStallDeliver AckedAll
 PROPERTIES AllDone LoopKeepsReading
 VIEW view
